@@ -110,6 +110,46 @@ def r2(R):
 def run(R):
     r1(R)
     r2(R)
+    r3(R)
+
+
+def r3(R):
+    """plans are walked recursively (optimizer, executor, Drop): the lowering from the syntax tree bounds how deep it chains them"""
+    from lib import depth as D
+    prog = R.prog
+    R.rule("C17-R3", "no request text can make the engine build a plan deeper than it can walk: in the functions that lower a parsed request "
+                     "(a parameter of a shared::query tree type) and are reachable from the string entry points, every loop that wraps the plan "
+                     "accumulator into a new operator each turn (`plan = join(plan, next)`, `plan = selection(plan, ..)`) charges a depth budget "
+                     "in that turn - a function that advances a counter, compares it with a constant and returns Err - before the wrap. The "
+                     "optimizer and the executor recurse once per chained operator, so without it a request with a few thousand FILTERs or "
+                     "patterns overflows the stack and aborts the process instead of returning an error")
+    ents = []
+    for e in ("execute_query::execute_sparql_query", "execute_query::execute_sparql_update", "execute_query::execute_query_rayon_parallel2_volcano"):
+        b = prog.one(e, crate="kolibrie")
+        R.anchor("C17-R3", e, b)
+        if b is not None:
+            ents.append(b.key)
+    if not ents:
+        return
+    rec = D.recursive_adts(prog)
+    budgets = D.persistent(prog, D.charging_fns(prog))
+    reach = prog.reachable(ents)
+    n = 0
+    for k in sorted(reach):
+        b = prog.bodies.get(k)
+        if b is None or b.crate != "kolibrie" or b.file.endswith("parser.rs"):
+            continue
+        root = prog.bodies.get(b.root, b) if b.is_closure else b
+        if not any("shared::query::" in t for t in root.arg_tys()):
+            continue
+        for h, blocks, l, nm, bb, how in D.deepening_loops(b, rec):
+            n += 1
+            c = D.loop_charged(b, h, blocks, bb, budgets)
+            R.ob("C17-R3", "%s:%s@%s" % (b.name.split("::")[-1], nm, how), "the loop of %s that chains `%s` (%s, by %s) charges the depth budget each turn"
+                 % (b.name, nm, D._base(b.local_ty(l)).split("::")[-1], how), c is not None, where=b.where(),
+                 detail=None if c is not None else "each turn wraps `%s` into a new operator and nothing bounds the number of turns: the plan is as deep "
+                 "as the request is long, and the recursive optimizer overflows the stack" % nm)
+    R.floor("C17-R3", "plan-chaining loops in the lowering", n, 3)
 
 
 def r1(R):
